@@ -25,7 +25,10 @@ build() { # build <out> <pkg> [extra go build args]
 bridge() {
   mkdir -p "$W/br"
   printf '{"Replace": {"%s/zz_verif_bridge.go": "%s/mc/bridge/bridge.go.txt"}}' "$REPO" "$V" > "$W/br/ov.json"
-  build "$W/gooseb" ./cmd/gooseb -overlay "$W/br/ov.json" || exit 3
+  # the bridge file calls unexported functions of package goose (declsOrError, NewPkgCtx ...): a refactor of the
+  # translator may leave it uncompilable; the checks then run without it (parts that need it are reported as skipped)
+  BRIDGE_BIN="$W/gooseb"
+  build "$W/gooseb" ./cmd/gooseb -overlay "$W/br/ov.json" 2>"$W/br/err.txt" || { echo "note: bridge does not build against this tree, continuing without it: $(head -3 "$W/br/err.txt" | tr '\n' ' ')" >&2; BRIDGE_BIN=""; }
 }
 instr() { go run ./cmd/instr -dir "$W/ov" -o "$W/ov.json" "$@" || { echo "harness error: instrumentation failed" >&2; exit 3; }; }
 
@@ -88,7 +91,7 @@ C01|C02)
   build "$W/bin" ./cmd/c01 || exit 3
   (cd $REPO && go build -o "$W/goose" ./cmd/goose) || { echo "harness error: goose does not build" >&2; exit 3; }
   bridge
-  EXTRA_ARGS="-prop $ID -bin $W/goose -bridge $W/gooseb"
+  EXTRA_ARGS="-prop $ID -bin $W/goose -bridge=$BRIDGE_BIN"
   ;;
 C04|C08)
   build "$W/bin" ./cmd/$LC || exit 3
@@ -104,7 +107,7 @@ C05|C07)
   build "$W/bin" ./cmd/$LC || exit 3
   (cd $REPO && go build -o "$W/goose" ./cmd/goose) || { echo "harness error: goose does not build" >&2; exit 3; }
   bridge
-  EXTRA_ARGS="-bin $W/goose -bridge $W/gooseb"
+  EXTRA_ARGS="-bin $W/goose -bridge=$BRIDGE_BIN"
   ;;
 C06)
   instr $REPO/interface.go=sync,go,chan,yieldloops,load,maprange $REPO/goose.go=maprange $REPO/types.go=maprange $REPO/errors.go=maprange $REPO/idents.go=maprange $REPO/internal/coq/coq.go=maprange
